@@ -1,7 +1,7 @@
 (** The C03 / C12 statements assembled from the Footprint* lemma files, the witnesses of the
     known finding and concrete instances (non-vacuity). *)
 From Coq Require Import List Arith PeanoNat NArith Ascii Bool Lia.
-From Rocfl Require Import Base.Bytes Model.FsOps Generated.Consts Model.Footprint Model.KnownC12 Model.KnownC03
+From Rocfl Require Import Base.Bytes Model.FsOps Generated.Consts Model.Footprint
   Proofs.FootprintFacts Proofs.FootprintPaths Proofs.FootprintGuard Proofs.FootprintCommitted Proofs.FootprintGen.
 Import ListNotations.
 Open Scope N_scope.
@@ -9,7 +9,7 @@ Open Scope N_scope.
 (** C03: no target of an allowed call of an operation other than purge lies inside a committed
     version directory of any object *)
 Lemma allowed_not_in_committed : forall c s o f p,
-  env_ok c s -> hex_ok (o_hex o) = true -> c03_mv_source_in_repo c o = false ->
+  env_ok c s -> hex_ok (o_hex o) = true -> (o_kind o = KMvExt -> o_csrcs o = o_srcs o) ->
   o_kind o <> KPurge -> (o_kind o = KInit -> p_objs s = []) ->
   allowed c s o f = true -> In p (targets f) -> in_committed s p = false.
 Proof.
@@ -31,7 +31,7 @@ Qed.
 
 Lemma gin_ok_hex : forall c s o g, gin_ok c s o g = true -> hex_ok (o_hex o) = true.
 Proof.
-  intros c s o g H. unfold gin_ok in H. do 15 (apply andb_true_iff in H as [H _]). exact H.
+  intros c s o g H. unfold gin_ok in H. do 16 (apply andb_true_iff in H as [H _]). exact H.
 Qed.
 
 Lemma Forall_firstn : forall {A} (P : A -> Prop) k l, Forall P l -> Forall P (firstn k l).
@@ -57,7 +57,7 @@ Qed.
 
 (** C03 for the generated traces *)
 Lemma gen_not_in_committed : forall c s o g k,
-  env_ok c s -> c03_mv_source_in_repo c o = false -> o_kind o <> KPurge -> (o_kind o = KInit -> p_objs s = []) ->
+  env_ok c s -> (o_kind o = KMvExt -> o_csrcs o = o_srcs o) -> o_kind o <> KPurge -> (o_kind o = KInit -> p_objs s = []) ->
   gin_ok c s o g = true ->
   Forall (fun x => forall p, In p (targets (snd x)) -> in_committed s p = false) (firstn k (gen c o g)).
 Proof.
@@ -74,15 +74,22 @@ Definition ex_hex : bytes := b "2352da7280f1decc3acf1ba84eb945c9fc2b7b541094e1d0
 Definition ex_obj : mobj := mkObj (ex_R ++ [b "a"]) [b "v1"].
 Definition ex_s : pre := mkPre [ex_obj] [] false.
 Definition ex_src : fpath := ex_R ++ [b "a"; b "v1"; b "content"; b "a.txt"].
-Definition ex_mv : opd := mkOp KMvExt ex_hex (b "v2") (b "a") true [ex_src].
+Definition ex_mv : opd := mkOp KMvExt ex_hex (b "v2") (b "a") true [ex_src] [ex_src].
 Definition ex_mv_call : fsop :=
   Rename ex_src (S_o ex_c ex_mv ++ [b "v2"; b "content"; b "stolen.txt"]).
+Definition ex_mv_outside : opd :=
+  mkOp KMvExt ex_hex (b "v2") (b "a") true [[b "home"; b "u"; b "m.txt"]] [[b "home"; b "u"; b "m.txt"]].
 
-(** the known finding is genuine: a named source inside a committed version directory is renamed away *)
-Lemma known_mv_source_witness :
-  c12_mv_source_in_repo ex_c ex_mv = true /\ allowed ex_c ex_s ex_mv ex_mv_call = true /\
-  in_committed ex_s ex_src = true /\ In ex_src (targets ex_mv_call).
-Proof. repeat split; try (vm_compute; reflexivity). left. reflexivity. Qed.
+(** since fix 128b230 an external mv whose named source is a committed content file is refused:
+    the rename is not in the footprint any more (only staging infrastructure is), while a source
+    outside the repository is moved as before *)
+Lemma mv_source_in_repo_refused :
+  mv_refused ex_c ex_mv = true /\ in_committed ex_s ex_src = true /\
+  allowed ex_c ex_s ex_mv ex_mv_call = false /\
+  allowed ex_c ex_s ex_mv (CreateNew (lockf ex_c ex_mv)) = false /\
+  allowed ex_c ex_s ex_mv_outside
+    (Rename [b "home"; b "u"; b "m.txt"] (S_o ex_c ex_mv ++ [b "v2"; b "content"; b "m.txt"])) = true.
+Proof. repeat split; vm_compute; reflexivity. Qed.
 
 Lemma ex_env_ok : env_ok ex_c ex_s.
 Proof.
@@ -96,16 +103,16 @@ Proof.
 Qed.
 
 (** a commit of version v2 of object `a` and the commit of a new object `p/q/r` *)
-Definition ex_commit : opd := mkOp KCommit ex_hex (b "v2") (b "a") true [].
+Definition ex_commit : opd := mkOp KCommit ex_hex (b "v2") (b "a") true [] [].
 Definition ex_gin : gin :=
   mkGin None (b "inventory.json.sha512") [] [] [] [] [b "v2/content/dup.txt"] []
         [S_o ex_c ex_commit ++ [b "inventory.json"]] [S_o ex_c ex_commit] [] None.
-Definition ex_new : opd := mkOp KCommit ex_hex (b "v1") (b "p/q/r") false [].
+Definition ex_new : opd := mkOp KCommit ex_hex (b "v1") (b "p/q/r") false [] [].
 Definition ex_gin_new : gin :=
   mkGin None (b "inventory.json.sha512") [] [] [] [] [] [] [] [] [] None.
 
 Lemma ex_gin_ok : gin_ok ex_c ex_s ex_commit ex_gin = true /\ gin_ok ex_c ex_s ex_new ex_gin_new = true
-  /\ c12_mv_source_in_repo ex_c ex_commit = false
+  /\ op_runs ex_c ex_commit = true
   /\ List.length (gen ex_c ex_commit ex_gin) = 35%nat /\ List.length (gen ex_c ex_new ex_gin_new) = 28%nat.
 Proof. repeat split; vm_compute; reflexivity. Qed.
 
